@@ -58,8 +58,9 @@ def session(rng, sup, transport, fam, limit):
         # one record that fills the message: the largest variable-length payload that fits
         fixed = []
         size = 16 + 4
-        for ie in ies:
-            if ie is var[0]:
+        jmax = next(j for j, ie in enumerate(ies) if ie is var[0])   # the same element may occur twice in a template
+        for j, ie in enumerate(ies):
+            if j == jmax:
                 fixed.append(None)
             else:
                 v = G.well_typed_value(rng, ie, big_ok=False, maxlen=10)
